@@ -1,5 +1,6 @@
 #include "gen.h"
 #include <algorithm>
+#include <set>
 #include <cmath>
 
 NormDef approx_norm(int dtype, const uint32_t p[7]) {
@@ -146,8 +147,8 @@ Plan gen_plan(const Profile &pf, uint64_t seed) {
                 static const int64_t durs[] = {1000000, 50000000, 900000000LL, 4900000000LL, 5200000000LL, 12000000000LL, 21000000000LL, 30000000000LL};
                 P.faults.stalls.push_back(FaultCfg::Stall{r.chance(0.6) ? 9 : (int) r.below(P.producers), (uint32_t) r.range(1, 400), durs[r.below(8)]}); } }
             if (r.chance(0.1)) { int n = (int) r.range(1, 2); for (int i = 0; i < n; ++i) {
-                static const int64_t js[] = {1000000, -1000000, 7000000000LL, -7000000000LL, 3600000000000LL, -3600000000000LL};
-                P.faults.jumps.push_back(FaultCfg::Jump{(uint32_t) r.range(1, 1500), js[r.below(6)]}); } }
+                static const int64_t js[] = {1000000, -1000000, 7000000000LL, -7000000000LL, 60000000000LL, -60000000000LL, 600000000000LL, -600000000000LL};
+                P.faults.jumps.push_back(FaultCfg::Jump{(uint32_t) r.range(1, 1500), js[r.below(8)]}); } }
         }
     }
     // ---- sources
@@ -389,7 +390,7 @@ void gen_reads(const Profile &pf, Plan &P, const Model &m, Rng &r) {
                 per_sig.push_back(o);
             }
         }
-        if (pf.reads_stats && s.sigtype == 0 && len > 0) {
+        if (pf.reads_stats && s.sigtype == 0 && len > 0 && s.dtype != DT_U24 && s.dtype != DT_I24) {   // the reader cannot summarise 24-bit types
             int nq = (int) r.range(2, 7);
             for (int i = 0; i < nq; ++i) {
                 Op o; o.kind = RD_STATS; o.sig = s.id; o.dtype = s.dtype;
@@ -455,6 +456,14 @@ void gen_reads(const Profile &pf, Plan &P, const Model &m, Rng &r) {
 bool plan_in_domain(const Plan &P, const Profile &pf) {
     std::map<int, int64_t> first;
     { std::map<int, int> omit_on; for (auto &o : P.ops) if (o.kind == OP_OMIT) omit_on[o.sig] = o.en; for (auto &kv : omit_on) if (kv.second && !pf.misuse) return false; }
+    if (!pf.misuse) {     // conforming programs: every signal is defined (once, on a defined source) before it is used
+        std::set<int> sigs{0}, srcs{0};
+        for (auto &o : P.ops) {
+            if (o.kind == OP_SRC) { if (!srcs.insert(o.src).second) return false; }
+            else if (o.kind == OP_SIG) { if (!srcs.count(o.src) || !sigs.insert(o.sig).second) return false; }
+            else if ((o.kind == OP_FSR || o.kind == OP_OMIT || o.kind == OP_UTC || o.kind == OP_ANNO) && !sigs.count(o.sig)) return false;
+        }
+    }
     for (auto &o : P.ops) {
         if (o.kind != OP_FSR) continue;
         if (!pf.gaps && !pf.misuse && !pf.engine_d && o.d > 0) return false;
